@@ -39,6 +39,8 @@ ConstantCases ==
 I64(seq) == T("i64", <<Len(seq)>>, seq)
 CosCases(shape) ==
    /\ P(CaseRec("cos", "ConstantOfShape", <<>>, <<I64(shape)>>, LowerA(SemConstantOfShape(I64(shape), <<>>)), <<"value", "default_value">>))
+   /\ (shape = <<1>> => LET VV == [dt |-> "i32", shape |-> <<1>>, data |-> <<-7>>] IN
+          \A shp \in {<<40003>>, <<20001, 2>>} : P(CaseRec("cos", "ConstantOfShape", <<AT("value", VV)>>, <<I64(shp)>>, SemConstantOfShape(I64(shp), <<AT("value", VV)>>), <<"value", "long">>)))
    /\ \A dt \in ProtoTypes, enc \in {"raw", "typed"}, k \in {2, 3} :
          LET V == AttrT(dt, <<1>>, enc) VV == [V EXCEPT !.data = <<AttrT(dt, <<3>>, enc).data[k]>>]
              s == SemConstantOfShape(I64(shape), <<AT("value", VV)>>) IN
@@ -73,9 +75,9 @@ WideCastCases(from, to) ==
       P(CaseRec("cast", "Cast", <<AI("to", OnnxCode(to))>>, <<X>>, MustValue(<<T(to, X.shape, X.data)>>), <<"value", "wide_integers", from \o "->" \o to>>))
    /\ LET X == T(from, <<>>, <<WideInts[2]>>) IN
       P(CaseRec("cast", "Cast", <<AI("to", OnnxCode(to))>>, <<X>>, MustValue(<<T(to, X.shape, X.data)>>), <<"value", "wide_integers", "scalar">>))
-\* a long tensor (conversions that are split into blocks): 2 x 8193 elements, the tail non-zero
+\* a long tensor (conversions that are split into blocks): 2 x 20001 elements, the tail non-zero
 LongCast(from, to) ==
-   LET X == T(from, <<2, 8193>>, [k \in 1..16386 |-> Fin((k % 7) + 1)]) s == SemCast(X, to) IN
+   LET X == T(from, <<2, 20001>>, [k \in 1..40002 |-> Fin((k % 7) + 1)]) s == SemCast(X, to) IN
    P(CaseRec("cast", "Cast", <<AI("to", OnnxCode(to))>>, <<LowerT(X)>>, LowerA(s), <<Tag(s), "long_tensor", from \o "->" \o to>>))
 CastInvalid(from) ==
    \A to \in {"bool", "string", "f16", "c64", "c128", "bf16", "undefined"} :
